@@ -20,7 +20,8 @@ def adler32(data):
 
 
 class Model:
-    def __init__(self, zlib, ignore_adler=False, ring=None):
+    def __init__(self, zlib, ignore_adler=False, ring=None, stop=False):
+        self.stop = stop          # TINFL_FLAG_STOP_ON_BLOCK_BOUNDARY
         self.zlib = zlib
         self.ignore = ignore_adler
         self.ring = ring          # ring size (power of two) or None for a flat buffer
@@ -100,6 +101,8 @@ class Model:
                             return ("Done", i, w)
                     else:
                         self.phase = "BH"
+                        if self.stop:
+                            return ("BlockBoundary", i, w)
                 elif room - len(w) == 0:
                     return ("HasMoreOutput", i, w)
                 elif i == len(chunk):
